@@ -297,11 +297,11 @@ fn c02_csv_names() {
 
 // One concrete (start, last) pair with real formatting: the symbolic 4x4 table above does not finish.
 macro_rules! csv_names_at {
-    ($name:ident, $s:expr, $e:expr, $stxt:expr, $etxt:expr) => {
+    ($name:ident, $s:expr, $e:expr, $stxt:expr, $etxt:expr, $structured:expr) => {
         #[kani::proof]
-        #[kani::unwind(24)]
+        #[kani::unwind(42)]
         fn $name() {
-            unsafe { gfs::LOG_NAMES.v = true; }
+            unsafe { gfs::LOG_NAMES.v = true; fmtm::STRUCTURED.v = $structured; }
             let mut cb = mk_dump(64);
             match cb.on_start($s) { Ok(()) => {}, Err(er) => { core::mem::forget(er); } }
             match cb.on_complete($e) {
@@ -329,8 +329,181 @@ macro_rules! csv_names_at {
         }
     };
 }
-//@ id=C02 tier=thorough name=c02_csv_names_7_12 timeout=1800 role=names bound=CsvDump,start-7,last-12,real-formatting mem=20 fn=CsvDump::on_start,CsvDump::on_complete
-csv_names_at!(c02_csv_names_7_12, 7, 12, "7", "12");
+//@ id=C02 tier=extra name=c02_csv_names_7_12 timeout=7200 role=names bound=CsvDump,start-7,last-12,real-formatting mem=20 fn=CsvDump::on_start,CsvDump::on_complete
+csv_names_at!(c02_csv_names_7_12, 7, 12, "7", "12", false);
+//@ id=C02 tier=quick name=c02_csv_names_12_345 timeout=900 role=names bound=CsvDump,start-12,last-345,structured-format-model fn=CsvDump::on_start,CsvDump::on_complete
+csv_names_at!(c02_csv_names_12_345, 12, 345, "12", "345", true);
+//@ id=C02 tier=quick name=c02_csv_names_0_0 timeout=900 role=names bound=CsvDump,start-0,last-0,structured-format-model
+csv_names_at!(c02_csv_names_0_0, 0, 0, "0", "0", true);
+//@ id=C02 tier=thorough name=c02_csv_names_big timeout=900 role=names bound=CsvDump,start-65536,last-4294967296(beyond-u32),structured-format-model
+csv_names_at!(c02_csv_names_big, 65536, 4294967296, "65536", "4294967296", true);
+
+// File names with the structured format model (verif_models::fmtm): start and last height symbolic below 10^$digits.
+macro_rules! csv_names_model {
+    ($name:ident, $lim:expr, $digits:expr) => {
+        #[kani::proof]
+        #[kani::unwind(42)]
+        fn $name() {
+            unsafe { gfs::LOG_NAMES.v = true; fmtm::STRUCTURED.v = true; fmtm::MAX_DIGITS.v = $digits; }
+            let s: u64 = kani::any();
+            let e: u64 = kani::any();
+            kani::assume(s < $lim && e < $lim);
+            let mut cb = mk_dump(64);
+            match cb.on_start(s) { Ok(()) => {}, Err(er) => { core::mem::forget(er); } }
+            match cb.on_complete(e) {
+                Ok(()) => {}
+                Err(er) => { core::mem::forget(er); assert!(false, "C02:completion_ok"); }
+            }
+            let kinds: [&str; 4] = ["blocks", "transactions", "tx_in", "tx_out"];
+            unsafe {
+                assert!(gfs::RENAMES.v == 4, "C02:four_files_renamed");
+                let mut k = 0;
+                while k < 4 {
+                    let got = &gfs::RENAME_TO.v[k][..gfs::RENAME_TO_LEN.v[k]];
+                    assert!(name_is(got, kinds[k].as_bytes(), s, e), "C02:file_name_carries_start_and_last_height");
+                    k += 1;
+                }
+            }
+            kani::cover!($lim <= 10 || (s > 9 && e > 99), "multi-digit heights");
+            kani::cover!(s == 0, "start 0");
+            core::mem::forget(cb);
+        }
+    };
+}
+/// got == kind "-" dec(s) "-" dec(e) ".csv", checked right to left without rendering (no division: digits are
+/// checked by multiplying back)
+fn name_is(got: &[u8], kind: &[u8], s: u64, e: u64) -> bool {
+    let n = got.len();
+    if n < kind.len() + 8 || &got[n - 4..] != b".csv" { return false; }
+    let mut i = n - 4;
+    let (ev, i2) = match parse_back(got, i) { Some(x) => x, None => return false };
+    i = i2;
+    if i == 0 || got[i - 1] != b'-' { return false; }
+    i -= 1;
+    let (sv, i3) = match parse_back(got, i) { Some(x) => x, None => return false };
+    i = i3;
+    if i == 0 || got[i - 1] != b'-' { return false; }
+    i -= 1;
+    if i != kind.len() { return false; }
+    let mut k = 0;
+    while k < i { if got[k] != kind[k] { return false; } k += 1; }
+    sv == s && ev == e
+}
+/// canonical decimal number ending just before `end`: returns (value, index of its first digit)
+fn parse_back(b: &[u8], end: usize) -> Option<(u64, usize)> {
+    let mut i = end;
+    let mut v: u64 = 0;
+    let mut mul: u64 = 1;
+    let mut nd = 0;
+    while i > 0 && b[i - 1] >= b'0' && b[i - 1] <= b'9' && nd < 19 {
+        v += (b[i - 1] - b'0') as u64 * mul;
+        mul = mul.wrapping_mul(10);
+        i -= 1;
+        nd += 1;
+    }
+    if nd == 0 { return None; }
+    if nd > 1 && b[i] == b'0' { return None; } // leading zero
+    Some((v, i))
+}
+//@ id=C02 tier=thorough name=c02_csv_names_m3 timeout=1800 role=names bound=CsvDump,start/last-height<1000-symbolic,structured-format-model mem=20 fn=CsvDump::on_start,CsvDump::on_complete
+csv_names_model!(c02_csv_names_m3, 1000, 3);
+
+// C01 row text: the four CSV rows of one block / transaction / input / output with symbolic field values
+// (hashes: first and last byte; integers: one decimal digit so that every row has one concrete length), rendered through
+// the structured format model and compared with rows built by an oracle that knows the documented column order.
+// Script hex: arr_to_hex is cut to its one-byte case here (the function itself is C01 `c01_hex`).
+fn hex1(d: &[u8]) -> String {
+    let t = b"0123456789abcdef";
+    let mut s = String::with_capacity(2);
+    s.push(t[(d[0] >> 4) as usize] as char);
+    s.push(t[(d[0] & 15) as usize] as char);
+    s
+}
+struct Row { b: [u8; 224], n: usize }
+impl Row {
+    fn new() -> Row { Row { b: [0; 224], n: 0 } }
+    fn ch(&mut self, c: u8) { self.b[self.n] = c; self.n += 1; }
+    fn digit(&mut self, v: u64) { self.ch(b'0' + v as u8); }
+    fn hash(&mut self, h: &[u8; 32]) {
+        let t = b"0123456789abcdef";
+        let mut i = 32;
+        while i > 0 { i -= 1; self.ch(t[(h[i] >> 4) as usize]); self.ch(t[(h[i] & 15) as usize]); }
+    }
+    fn byte(&mut self, x: u8) { let t = b"0123456789abcdef"; self.ch(t[(x >> 4) as usize]); self.ch(t[(x & 15) as usize]); }
+    fn same_as_file(&self, fd: usize) -> bool {
+        unsafe {
+            if gfs::ACCEPTED.v[fd] != self.n { return false; }
+            let mut hi = 0;
+            while hi < self.n {
+                let mut lo = 0;
+                while lo < 16 && hi + lo < self.n { if gfs::WLOG.v[fd][hi + lo] != self.b[hi + lo] { return false; } lo += 1; }
+                hi += 16;
+            }
+        }
+        true
+    }
+}
+//@ id=C01 tier=quick name=c01_row_text timeout=1500 role=block_rows bound=1-block,1-tx,1-input,1-output,first/last-hash-byte-symbolic,integers-one-digit,1-byte-scripts,structured-format-model mem=20 fn=CsvDump::on_block,Block::as_csv,Hashed<EvaluatedTx>::as_csv,TxInput::as_csv,EvaluatedTxOut::as_csv
+#[kani::proof]
+#[kani::stub(std::io::Error::is_interrupted, crate::verif_models::fs::stub_not_interrupted)]
+#[kani::stub(<std::io::Error as std::error::Error>::source, crate::verif_models::fs::stub_no_source)]
+#[kani::stub(<std::io::Error as std::error::Error>::cause, crate::verif_models::fs::stub_no_cause)]
+#[kani::stub(crate::common::utils::arr_to_hex, hex1)]
+#[kani::unwind(34)] // 32-byte hashes, format strings of <= 27 bytes, rows in chunks of 16
+fn c01_row_text() {
+    unsafe { fmtm::STRUCTURED.v = true; fmtm::MAX_DIGITS.v = 1; gfs::LOG_CONTENT.v = true; }
+    // block hash, prev hash, merkle root, txid, spent txid: distinct constants with a symbolic first and last byte
+    // ([measured] 160 symbolic hash bytes: no result in 15 min)
+    let mut hs: [[u8; 32]; 5] = [[0x1a; 32], [0x2b; 32], [0x3c; 32], [0x4d; 32], [0x5e; 32]];
+    let ends: [[u8; 2]; 5] = [[1, 2], [3, 4], [5, 6], [7, 8], [9, 10]];
+    let mut k = 0;
+    while k < 5 { hs[k][0] = ends[k][0]; hs[k][31] = ends[k][1]; k += 1; }
+    let d: [u8; 12] = [1, 2, 3, 4, 5, 6, 7, 8, 9, 1, 3, 0];
+    let mut i = 0;
+    while i < 12 { kani::assume(d[i] < 10); i += 1; }
+    let sc: [u8; 2] = kani::any();       // scriptSig byte, scriptPubKey byte
+    let mut block = mk_block(1, 1, 1, true);
+    block.size = d[0] as u32;
+    block.header.hash = sha256d::Hash::from_byte_array(hs[0]);
+    block.header.value.version = d[1] as u32;
+    block.header.value.prev_hash = sha256d::Hash::from_byte_array(hs[1]);
+    block.header.value.merkle_root = sha256d::Hash::from_byte_array(hs[2]);
+    block.header.value.timestamp = d[2] as u32;
+    block.header.value.bits = d[3] as u32;
+    block.header.value.nonce = d[4] as u32;
+    block.txs[0].hash = sha256d::Hash::from_byte_array(hs[3]);
+    block.txs[0].value.version = d[5] as u32;
+    block.txs[0].value.locktime = d[6] as u32;
+    block.txs[0].value.inputs[0].outpoint = TxOutpoint::new(sha256d::Hash::from_byte_array(hs[4]), d[7] as u32);
+    block.txs[0].value.inputs[0].seq_no = d[8] as u32;
+    block.txs[0].value.inputs[0].script_sig[0] = sc[0];
+    block.txs[0].value.outputs[0].out.value = d[9] as u64;
+    block.txs[0].value.outputs[0].out.script_pubkey[0] = sc[1];
+    let height = d[10] as u64;
+    let mut cb = mk_dump(256);
+    match cb.on_block(&block, height) { Ok(()) => {}, Err(e) => { core::mem::forget(e); assert!(false, "C01:on_block_ok"); } }
+    match cb.on_complete(height) { Ok(()) => {}, Err(e) => { core::mem::forget(e); assert!(false, "C01:completion_ok"); } }
+    // (@hash, height, version, blocksize, @hashPrev, @hashMerkleRoot, nTime, nBits, nNonce)
+    let mut r = Row::new();
+    r.hash(&hs[0]); r.ch(b';'); r.digit(height); r.ch(b';'); r.digit(d[1] as u64); r.ch(b';'); r.digit(d[0] as u64); r.ch(b';');
+    r.hash(&hs[1]); r.ch(b';'); r.hash(&hs[2]); r.ch(b';'); r.digit(d[2] as u64); r.ch(b';'); r.digit(d[3] as u64); r.ch(b';'); r.digit(d[4] as u64); r.ch(b'\n');
+    assert!(r.same_as_file(3), "C01:block_row_is_hash_height_version_size_prev_merkle_time_bits_nonce");
+    // (@txid, @hashBlock, version, lockTime)
+    let mut r = Row::new();
+    r.hash(&hs[3]); r.ch(b';'); r.hash(&hs[0]); r.ch(b';'); r.digit(d[5] as u64); r.ch(b';'); r.digit(d[6] as u64); r.ch(b'\n');
+    assert!(r.same_as_file(4), "C01:tx_row_is_txid_blockhash_version_locktime");
+    // (@txid, @hashPrevOut, indexPrevOut, scriptSig, sequence)
+    let mut r = Row::new();
+    r.hash(&hs[3]); r.ch(b';'); r.hash(&hs[4]); r.ch(b';'); r.digit(d[7] as u64); r.ch(b';'); r.byte(sc[0]); r.ch(b';'); r.digit(d[8] as u64); r.ch(b'\n');
+    assert!(r.same_as_file(5), "C01:input_row_is_txid_prevout_index_scriptsig_sequence");
+    // (@txid, indexOut, value, @scriptPubKey, address)
+    let mut r = Row::new();
+    r.hash(&hs[3]); r.ch(b';'); r.digit(0); r.ch(b';'); r.digit(d[9] as u64); r.ch(b';'); r.byte(sc[1]); r.ch(b';'); r.ch(b'a'); r.ch(b'\n');
+    assert!(r.same_as_file(6), "C01:output_row_is_txid_index_value_scriptpubkey_address");
+    kani::cover!(d[1] != d[0] && d[2] != d[3] && d[3] != d[4] && d[5] != d[6] && d[7] != d[8] && d[9] != 0 && d[10] != d[1], "all integer columns distinguishable");
+    core::mem::forget(cb);
+    core::mem::forget(block);
+}
 
 // C01 block_rows: one row per block / transaction / input / output, totals equal the rows written.
 // Constant rows (2 bytes each); the row *text* with real formatting is the thorough-tier c02_csv_names / c07_unspent_row.
